@@ -271,6 +271,9 @@ func parseSort(value interface{}, qid uint64) (*SortRequest, error) {
 			log.Errorf("qid=%d, Sort request has more than one requirement", qid)
 			return nil, errors.New("sort request has more than one requirement")
 		}
+		if len(t) == 0 {
+			return nil, errors.New("sort request has no requirement")
+		}
 		return processSortRequirements(t[0], qid)
 	}
 
